@@ -161,6 +161,15 @@ CLAIMED = {
              "networks incl. a two-round limiting cascade), labelled bounded.",
         note="Assumed: A-SOLVE (Newton keeps reference / PV voltages), A-LOOKUP. Not decided deductively: "
              "_run_ac_pf_with_qlims_enforced (needs a per-bus sum invariant), _get_shunt_results, motors, asymmetric elements."),
+    "C05": dict(
+        text="Proof: the real _calc_line_parameter and _calc_switch_parameter write per-unit impedances whose physical value "
+             "BR_R * V_N^2 / S_N is the ohmic value for every net.sn_mva (generic row); lemmas on the real branch_vectors: scaling "
+             "series impedances by k and shunt admittances by 1/k (a change of the per-unit base) scales all four two-port "
+             "admittances by 1/k; parallel = n gives n times the admittances of one line; a branch without tap changer is symmetric "
+             "under swapping its ends.",
+        note="Assumed: A-LOOKUP (index relabelling / row order is the assumed block layout, not proved), reals for floats. Not decided: "
+             "splitting loads (per-bus sums), out-of-service elements, bus fusing through zero-impedance switches, per-unit "
+             "conversion of transformers / impedances / wards."),
 }
 
 NOT_APPLICABLE = {
